@@ -339,7 +339,12 @@ func finish(p *propInfo, tier string, seed int, m *merged, wall time.Duration, e
 		v := vs[0]
 		rp := writeReplay(p, tier, c, v)
 		lines = append(lines, fmt.Sprintf("VIOLATION property=%s replay=%s", p.id, rp))
-		fmt.Fprintf(os.Stderr, "--- %s class=%q (%d cases)\n%s\n", p.id, c, m.violCounts[c], v.Msg)
+		fmt.Fprintf(os.Stderr, "--- %s class=%q (%d cases)\n", p.id, c, m.violCounts[c])
+		for i, w := range vs {
+			if i < 4 {
+				fmt.Fprintf(os.Stderr, "  [%d] %s\n      case: %s\n", i+1, w.Msg, tail(string(w.Case), 600))
+			}
+		}
 	}
 	if len(m.harnessErrs) > 0 {
 		for _, e := range m.harnessErrs {
